@@ -50,10 +50,12 @@ def layoutLenB (l : List Nat) : Nat :=
 
 /-- the class of signatures `imp_exact_partial` covers, as a Boolean (see `Supported` in P0f/Props/C05.lean) -/
 def supportedB (s : Sig) (b : Base) : Bool :=
+  let body := s.layout.takeWhile (· != 0)
+  let ends := s.layout.contains 0
   (s.ipVer.isNone || s.ipVer == some b.ipVer)
-  && s.layout.all (fun k => k == 1 || k == 2 || k == 3 || k == 4 || k == 8)
-  && layoutLenB s.layout % 4 == 0
-  && s.eolPad == 0
+  && body.all (fun k => k == 1 || k == 2 || k == 3 || k == 4 || k == 8)
+  && (layoutLenB body + (if ends then 1 + s.eolPad else 0)) % 4 == 0
+  && (ends || s.eolPad == 0)
   && (b.ipVer != 6 || s.olen == 0) && s.olen % 4 == 0
   && decide (1 ≤ s.ttl) && decide (s.ttl ≤ 255)
   && (match s.mss with | some m => decide (m < 65536) | none => true)
@@ -63,7 +65,7 @@ def supportedB (s : Sig) (b : Base) : Bool :=
   && (s.wtype != .mss || (decide (1 ≤ s.wsize) && decide (s.wsize ≤ 655) && s.layout.contains 2
         && (match s.mss with | some m => decide (100 ≤ m) && decide (m * s.wsize ≤ 65535) | none => true)))
   && s.wtype != .mtu
-  && !s.quirks .bad && !s.quirks .eolNz
+  && !s.quirks .bad && (!s.quirks .eolNz || (ends && decide (0 < s.eolPad)))
   && (!s.quirks .nzId || s.quirks .df) && (!s.quirks .zeroId || !s.quirks .df)
   && !(s.quirks .nzAck && s.quirks .zeroAck) && !(s.quirks .nzUrg && s.quirks .urg)
   && (!(b.ipVer == 4 && s.ipVer == some 4) || !s.quirks .flow)
@@ -74,6 +76,7 @@ def supportedB (s : Sig) (b : Base) : Bool :=
   && (match s.scale with | some w => s.layout.contains 3 || w == 0 | none => true)
   && (!s.quirks .zeroTs1 || s.layout.contains 8)
   && (!s.quirks .nzTs2 || (s.layout.contains 8 && impTcpType s b == F_SYN))
+  && s.layout == body ++ (if ends then [0] else [])
 
 /-- admissible base packet, as a Boolean (see `Admissible`) -/
 def admissibleB (b : Base) : Bool :=
